@@ -743,6 +743,12 @@ var interestingUints = []uint64{0, 1, math.MaxUint64, 1 << 63, 1<<63 - 1, 1 << 5
 var interestingFloats = []float64{0, math.Copysign(0, -1), 1, -1.5, 0.1, 1e21, 1e-7, 1e300, 5e-324, math.MaxFloat64, 9.223372036854775807e18, 1.8446744073709552e19, 3.141592653589793, 100, 1e6}
 
 func genSetValue(t *rapid.T, op *editOp, nonFinite bool) {
+	if (op.Kind == "SetInt" || op.Kind == "SetUInt" || op.Kind == "SetFloat") && rapid.IntRange(0, 7).Draw(t, "lookalike") == 0 {
+		// a payload word whose top byte is a tag byte
+		w := tagLookalikeWords[rapid.IntRange(0, len(tagLookalikeWords)-1).Draw(t, "lw")]
+		op.I, op.U, op.F = int64(w), w, w
+		return
+	}
 	switch op.Kind {
 	case "SetBool":
 		op.B = rapid.Bool().Draw(t, "b")
